@@ -61,7 +61,8 @@ def run_file(desc, prop="C05"):
     bad = None
     log = []
     try:
-        plan, reg, stores, nodes, deps = F.build(d, shape, c_json)
+        with_stamp = rng.random() < 0.4
+        plan, reg, stores, nodes, deps = F.build(d, shape, c_json, path_source=with_stamp)
         names = list(nodes)
         pad = "x" * rng.randint(0, 20)
         aval = {"v": rng.randint(10, 99), "pad": pad}
@@ -82,7 +83,7 @@ def run_file(desc, prop="C05"):
         writer.write(aval)
         F.wait_fs_tick(d)
         for step in range(rng.randint(3, 8)):
-            op = "run" if step == 0 else rng.choice(["run", "update_same_len", "update", "touch_source", "delete", "run", "leftover_staging"])
+            op = "run" if step == 0 else rng.choice(["run", "update_same_len", "update", "touch_source", "delete", "run", "leftover_staging"] + (["touch_stamp", "touch_stamp"] if with_stamp else []))
             if op == "update_same_len":
                 aval = {"v": rng.choice([v for v in range(10, 100) if v != aval["v"]]), "pad": pad}
                 writer.write(aval)
@@ -97,6 +98,11 @@ def run_file(desc, prop="C05"):
                     os.remove(stores[victim].path)
                 except OSError:
                     pass
+            elif op == "touch_stamp":
+                # the file behind the PathSource is replaced (same registry, same PathSource object as in the earlier runs)
+                with open(str(stores["p"].path), "w") as f_:
+                    f_.write(f"stamp {step}")
+                counters["file_path_source_touched"] = counters.get("file_path_source_touched", 0) + 1
             elif op == "leftover_staging":
                 # what a writer killed between opening its staging file and the rename leaves behind, next to a value that is complete:
                 # it changes nothing about which values are out of date
